@@ -129,7 +129,7 @@ func c17Gen(c *engine.C) engine.Case {
 	if !c.Bool("no-final-newline") {
 		sb.WriteString("\n")
 	}
-	extCase := engine.PickTag(c, "extension", "selected", "not-selected", "longer-suffix", "other-filter")
+	extCase := engine.PickTag(c, "extension", "selected", "not-selected", "longer-suffix", "other-filter", "javascript-file", "typescript-file", "python-file")
 	name, filters := "a.java", []string{".java"}
 	selected := true
 	switch extCase {
@@ -139,6 +139,12 @@ func c17Gen(c *engine.C) engine.Case {
 		name = "a.gen.java"
 	case "other-filter":
 		filters, selected = []string{".py", ".go"}, false
+	case "javascript-file":
+		name, filters = "a.js", []string{".js"}
+	case "typescript-file":
+		name, filters = "a.ts", []string{".java", ".ts"}
+	case "python-file":
+		name, filters = "a.py", []string{".py"}
 	}
 	src := sb.String()
 	// the source file is a symbolic link to a file kept elsewhere (under a name no filter selects)
@@ -247,7 +253,7 @@ func init() {
 	engine.Register(&engine.Spec{
 		ID:    "C17",
 		Title: "Every TODO/FIXME comment is reported once with its line; nothing else is",
-		Rule: "X1 full product: all sequences of 1..2 (quick) / 1..3 (thorough) tokens over a 40-token alphabet (code, string/char/template literals containing comment markers and TODO, line/block/hash comments with empty, one-character, marker-only, colon, assignee, lower/mixed case, late-mention, multi-line, gutter, Javadoc and unterminated shapes) x same-line/new-line joiner x final newline x 4 extension-filter cases x regular file / symbolic link x alone / a second time under the same base name in another directory. " +
+		Rule: "X1 full product: all sequences of 1..2 (quick) / 1..3 (thorough) tokens over a 40-token alphabet (code, string/char/template literals containing comment markers and TODO, line/block/hash comments with empty, one-character, marker-only, colon, assignee, lower/mixed case, late-mention, multi-line, gutter, Javadoc and unterminated shapes) x same-line/new-line joiner x final newline x 7 extension-filter cases (.java, unselected, longer suffix, other filter, .js, .ts, .py) x regular file / symbolic link x alone / a second time under the same base name in another directory. " +
 			"Non-trivial = at least one entry is required. Distinct = (file name, filters, content).",
 		Assumptions: []string{
 			"after a line or hash comment the next token starts a new line (a line comment swallows the rest of its line)",
